@@ -299,6 +299,8 @@ class World:
             self._emit_type_urls(out)
         if self.cfg.get('wire_compat') and not reach:
             self._emit_wire_compat(out)
+        if self.cfg.get('macro_checks') and not reach:
+            self._check_macros()
         if self.cfg.get('storage_keys') and not reach:
             self._emit_storage_keys(out, mods)
         if self.cfg.get('storage_keys_same') and not reach:
@@ -610,6 +612,40 @@ class World:
                       f'{{ reveal_strlit({la}); reveal_strlit({lb}); }}\n')
         out.w('} // verus!\n}\n')
         self.generated_storage_keys_same = n
+
+    def _check_macros(self):
+        """a macro the shim re-defines (it is expanded before Verus sees the code) must be, token for token, the
+        dependency's macro (apart from the listed tolerated differences): text comparison, else undecided"""
+        import glob as _glob
+        lock = open(os.path.join(REPO, 'Cargo.lock')).read()
+        done = []
+        for mc in self.cfg['macro_checks']:
+            crate, rel = mc['registry'].split('/', 1)
+            vers = re.findall(r'name = "%s"\nversion = "([^"]+)"' % re.escape(crate), lock)
+            cargo_home = os.environ.get('CARGO_HOME', os.path.expanduser('~/.cargo'))
+            hits = _glob.glob(os.path.join(cargo_home, 'registry', 'src', '*', f'{crate}-{vers[0]}', rel)) if len(vers) == 1 else []
+            if not hits:
+                raise Inconclusive(f'macro check: {mc["registry"]} not found in the cargo registry')
+            def grab(text, name):
+                i = text.find(f'macro_rules! {name} ' + '{')
+                if i < 0:
+                    return None
+                j = text.index('{', i)
+                d, k = 1, j + 1
+                while d:
+                    d += {'{': 1, '}': -1}.get(text[k], 0)
+                    k += 1
+                t = re.sub(r'//[^\n]*', '', text[i:k])
+                for tol in mc.get('tolerate', []):
+                    t = t.replace(tol, '')
+                return re.sub(r'\s+', '', t)
+            theirs = grab(open(hits[0]).read(), mc['macro'])
+            ours = grab(open(os.path.join(VERIF, 'shim', 'macros.rs')).read(), mc['macro'])
+            if theirs is None or ours is None or theirs != ours:
+                raise Inconclusive(f'macro check: shim macro `{mc["macro"]}!` differs from {crate}-{vers[0]}/{rel}\n  shim:  {ours}\n  crate: {theirs}')
+            done.append(f'macros: {mc["macro"]}!')
+        self.shim_blocks = getattr(self, 'shim_blocks', []) + done
+        self.registry_crates = dict(getattr(self, 'registry_crates', {}), **{mc['registry'].split('/')[0]: 'macro text' for mc in self.cfg['macro_checks']})
 
     def _emit_wire_compat(self, out):
         """C20, wire compatibility: for every prost message (struct) and oneof (enum) of the bindings that an
